@@ -3,7 +3,7 @@
 package webstack
 
 // C20: a live process can always snapshot itself. Quiescent workloads: every
-// multiset of <= 3 (thorough 4) goroutines from 11 kinds, parked with known call
+// multiset of <= 3 (thorough 4) goroutines from 14 kinds (three of them generic instantiations), parked with known call
 // chains; the runtime's own dump must parse into exactly the runtime's goroutines
 // with the known ones showing their states, frames and creators; the full product
 // of request parameters goes through the real handler.
@@ -543,7 +543,7 @@ func TestVerifC20(t *testing.T) {
 		return
 	}
 	maxSize := r.Pick(3, 4)
-	r.Set("rule", fmt.Sprintf("quiescent workloads: every multiset of <= %d goroutines from %d kinds (chan receive, chan send, select, sync.Mutex, sync.Cond, WaitGroup, sleep, pipe read = IO wait, locked to thread, 200-deep recursion, just exited), parked with known call chains; runtime.Stack(all) taken from a known frame and parsed: nil/EOF error, goroutine count = header lines = runtime.NumGoroutine, the first goroutine is the dumping one, every known goroutine present once with a state from its kind's allowed set, lock flag, frame count, elision, launcher closure at the bottom, creator; plus the full product method {GET,HEAD,POST,PUT} x similarity {absent, 4 valid, bogus} x augment {absent,0,1,2,-1,x} x maxmem {absent,1,1048576,2097152,-5,x} = 864 requests through the real SnapshotHandler on 3 workloads: valid GET => 200 text/html complete page whose bucket sizes add up to the number of goroutines, anything else => 4xx. non-trivial = >= 2 goroutines in the workload or a request; distinct = workload multiset / request", maxSize, len(workKinds)))
+	r.Set("rule", fmt.Sprintf("quiescent workloads: every multiset of <= %d goroutines from %d kinds (chan receive, chan send, select, sync.Mutex, sync.Cond, WaitGroup, sleep, pipe read = IO wait, locked to thread, 200-deep recursion, just exited, three instantiations of a generic function with different argument layouts), parked with known call chains; runtime.Stack(all) taken from a known frame and parsed: nil/EOF error, goroutine count = header lines = runtime.NumGoroutine, the first goroutine is the dumping one, every known goroutine present once with a state from its kind's allowed set, lock flag, frame count, elision, launcher closure at the bottom, creator; plus the full product method {GET,HEAD,POST,PUT} x similarity {absent, 4 valid, bogus} x augment {absent,0,1,2,-1,x} x maxmem {absent,1,1048576,2097152,-5,x} = 864 requests through the real SnapshotHandler on 3 workloads: valid GET => 200 text/html complete page whose bucket sizes add up to the number of goroutines, anything else => 4xx. non-trivial = >= 2 goroutines in the workload or a request; distinct = workload multiset / request", maxSize, len(workKinds)))
 	r.Set("assumptions", []string{"the Go runtime's scheduler cannot be put under a controlled scheduler: runtime states reachable only under churn and concurrent request interleavings are exercised by the non-exhaustive churn supplement, not decided", "allowed state strings per kind cover the installed toolchain and its neighbours", "numeric maxmem values below the documented minimum are clamped, not invalid"})
 	part := os.Getenv("VERIF_PART")
 	if part == "churn" {
